@@ -99,6 +99,9 @@ func c15Configs(role string, ca bool) (cc, sc *gmtls.Config, eutIsClient bool, e
 	}
 	sc.SessionTicketsDisabled = true
 	if ca {
+		// (the servers that ask for a client certificate also go through the per-connection hook, here one that keeps the
+		// listener's configuration: the hello is then inspected - ClientHelloInfo - before any of it has been checked)
+		sc.GetConfigForClient = func(*gmtls.ClientHelloInfo) (*gmtls.Config, error) { return nil, nil }
 		sc.ClientAuth = gmtls.RequireAndVerifyClientCert
 		if gm {
 			sc.ClientCAs = f.sm2CA
